@@ -28,7 +28,7 @@ ASSUMPTIONS = ['pyexpat 2.5 as second witness for XML 1.0 output (decoded with P
                'escape lists of XMLFormatter modes taken from gEscapeChars on the unchanged tree (header documentation is out of date) and '
                'cross-checked semantically by parsing the formatted text in the context the mode is for',
                'format-pretty-print off (excluded by the property); serializer feature "entities" left at its default (true)']
-BUDGET = {'quick': 420, 'thorough': 5200}
+BUDGET = {'quick': 500, 'thorough': 4000}
 WALLCAP = {'quick': 500, 'thorough': 2700}
 
 XMLNS_URI = xm.XMLNS_URI
@@ -52,6 +52,11 @@ F_CDEND = 'C12-cdata-split-drops-terminator'
 F_CDSUR = 'C12-cdata-unrep-surrogate-halves'
 F_COMM = 'C12-comment-dashes-emitted'
 F_PI = 'C12-pi-terminator-emitted'
+F_ATTRNAME = 'C12-attr-name-charref'
+F_CDBAD = 'C12-cdata-split-invalid-char-emitted'
+F_ICUSUPP = 'C12-icu-encoding-supplementary'
+F_DTEMPTY = 'C12-doctype-empty-intsubset-asymmetric'
+INTRINSIC = {'UTF-8', 'UTF-16', 'UTF-16LE', 'UTF-16BE', 'ISO-8859-1', 'US-ASCII', 'windows-1252', 'IBM1140'}
 
 def can_encode(ch, codec):
     try: ch.encode(codec); return True
@@ -85,6 +90,8 @@ def norm_dump(rows, ignore_spec=False, drop_xmlns=False, merge_cdata=False, skip
         k = e[0]
         if k == 'DOCINFO':
             out.append(('DOCINFO', e[2] if len(e) > 2 else '')); continue     # version: absent (\N) originally vs "1.0" after the round trip
+        if k == 'INTSUB':
+            out.append(('INTSUB', '' if (len(e) < 2 or e[1] == '\\N') else e[1])); continue   # <!DOCTYPE a []> vs <!DOCTYPE a>: isEqualNode treats null and "" alike
         if k == 'A':
             e = list(e) + [''] * (6 - len(e))
             if drop_xmlns and e[1].startswith('{' + XMLNS_URI + '}'): continue
@@ -227,6 +234,10 @@ def check_roundtrip(case, resp_text, stats=None):
         if not reported:
             return False, 'inexpressible tree (%s) serialised without any error report; output %r' % (case.get('why'), ser1[:300]), info
         return True, 'ok (error reported)', info
+    if reported and case.get('err_allowed'):
+        # a character the encoding cannot represent sits where the grammar allows no reference (name, comment, PI, CDATA without split,
+        # doctype): reporting is the specified outcome
+        info['labels'].add('reported-unencodable-markup'); return True, 'ok (unencodable markup reported)', info
     if reported:
         return False, 'expressible tree: serializer reported an error / failed: ok=%s log=%r output=%r' % (ok1, serlog[:4], ser1[:200]), info
     for w in warnings:
@@ -257,9 +268,12 @@ def check_roundtrip(case, resp_text, stats=None):
         a = [e for e in a if e[0] not in ('SD', 'ED')]; b = [e for e in b if e[0] not in ('SD', 'ED')]
     d = first_diff(a, b)
     if d: return False, 'reparsed tree differs from the original (canonical dumps):\n%s\noutput: %r' % (d, ser1[:600]), info
-    exact = norm_dump(orig, ignore_spec, False, False) == norm_dump(rep, ignore_spec, False, False) or \
-            [e for e in norm_dump(orig, ignore_spec, False, False) if e[0] != 'DOCINFO'] == [e for e in norm_dump(rep, ignore_spec, False, False) if e[0] != 'DOCINFO']
+    exact = [e for e in norm_dump(orig, ignore_spec, False, False) if e[0] != 'DOCINFO'] == [e for e in norm_dump(rep, ignore_spec, False, False) if e[0] != 'DOCINFO']
     eq = r['EQ']
+    if eq == (True, False) and any(e[0] == 'INTSUB' and (len(e) < 2 or e[1] == '') for e in orig) and not case.get('strict'):
+        # <!DOCTYPE a []>: internalSubset "" before, null after the round trip; DOMDocumentTypeImpl::isEqualNode treats that pair as equal in
+        # one direction only (finding F_DTEMPTY): input-side predicate, counted
+        info['excluded'] = info['excluded'] or F_DTEMPTY; eq = (True, True)
     if eq[0] != eq[1]: return False, 'isEqualNode is not symmetric: a.isEqualNode(b)=%s b.isEqualNode(a)=%s' % eq, info
     if exact and not split_happened and not eq[0]:
         return False, 'dumps are equal but isEqualNode(original, reparsed) is false\noutput: %r' % (ser1[:600],), info
@@ -336,6 +350,51 @@ def all_chardata(d):
             if ad.dtoks is not None: out.append(ad.dvalue)
     return out
 
+SAFE_REF = {'<': '&lt;', '&': '&amp;', '>': '&gt;', '"': '&quot;', "'": '&apos;'}
+def sanitize_intsubset(d):
+    """Finding C12-intsubset-unescaped: the re-synthesised internal subset writes entity values and attribute defaults without
+    re-escaping.  The class (internal-subset entity whose replacement text contains a character reference, '%' or '"'; attribute default
+    whose value contains & < " TAB LF CR) is removed by construction: the offending lexical forms are replaced by equivalent safe ones or the
+    token is dropped.  -> number of tokens changed"""
+    changed = [0]
+    def fix_toks(toks, ctx):
+        out = []
+        for c, f in toks:
+            bad = f.startswith('&#') or '%' in f or '"' in f or (ctx == 'misc' and '&' in f) or (ctx == 'default' and (re.search('[&<"\t\n\r]', c) or f.startswith('&')))
+            if not bad: out.append((c, f)); continue
+            changed[0] += 1
+            if ctx == 'default': continue
+            if len(c) == 1 and c in SAFE_REF and ctx in ('content', 'attr'): out.append((c, SAFE_REF[c])); continue
+            if f.startswith('&#') and len(c) == 1 and c not in '%"\r' and not (ctx == 'attr' and c in '\t\n') and xml_literal_ok(c, d.version):
+                out.append((c, c)); continue
+        toks[:] = out
+    def walk(n):
+        if isinstance(n, xm.El):
+            for a in n.attrs:
+                if isinstance(a, xm.At):
+                    if a.quote == '"': a.quote = "'"; changed[0] += 1
+                    fix_toks(a.toks, 'attr')
+            for c in n.children: walk(c)
+        elif isinstance(n, xm.Tx):
+            fix_toks(n.toks, 'content')
+            if not n.toks: n.toks.append(('x', 'x'))
+        elif isinstance(n, (xm.CD, xm.Cm, xm.PI)):
+            fix_toks(n.toks, 'misc')
+            if isinstance(n, xm.CD) and not n.toks: n.toks.append(('x', 'x'))
+    if not d.doctype: return 0
+    for x in d.doctype['decls']:
+        if x.where != 'int': continue
+        if isinstance(x, xm.EntDecl) and x.kind == 'content':
+            for c in x.content: walk(c)
+        elif isinstance(x, xm.EntDecl) and x.kind == 'attr': fix_toks(x.attoks, 'attr')
+        elif isinstance(x, xm.AttDecl) and x.dtoks is not None: fix_toks(x.dtoks, 'default')
+    return changed[0]
+
+def xml_literal_ok(c, version):
+    o = ord(c)
+    if version == '1.1' and ((1 <= o <= 0x1f and o not in (9, 10)) or 0x7f <= o <= 0x9f or o == 0x2028): return False
+    return o in (9, 10) or 0x20 <= o <= 0xD7FF or 0xE000 <= o <= 0xFFFD or o >= 0x10000
+
 RESTRICTED_11 = re.compile('[\x01-\x08\x0b\x0c\x0e-\x1f\x7f-\x84\x86-\x9f]')
 def parse_exclusions(d):
     ex = []
@@ -376,6 +435,23 @@ def parse_labels(d, text, enc, s):
     if d.version == '1.1': L.add('xml11')
     return L
 
+def iter_cdata(d):
+    def w(n):
+        if isinstance(n, xm.CD): yield n
+        elif isinstance(n, xm.El):
+            for c in n.children:
+                for x in w(c): yield x
+    for x in w(d.root): yield x
+    for e in d.ents_content.values():
+        for c in e.content:
+            for x in w(c): yield x
+
+def iter_attrs_all(d):
+    for a in iter_attrs(d.root): yield a
+    for e in d.ents_content.values():
+        for c in e.content:
+            for a in iter_attrs(c): yield a
+
 def iter_attrs(n):
     if isinstance(n, xm.El):
         for a in n.attrs:
@@ -413,17 +489,50 @@ def parse_case_strategy(draw, encs):
     sub = draw(st.integers(0, 7))
     return d, ns, ere, s, sub
 
-def build_parse_case(d, ns, ere, s, sub):
+def markup_strings(d, split):
+    """strings that end up where the grammar allows no character reference"""
+    out = []
+    def walk(n):
+        if isinstance(n, xm.El):
+            out.append(xm.qname_str(n.qname))
+            for c in n.children: walk(c)
+        elif isinstance(n, xm.Cm): out.append(n.value)
+        elif isinstance(n, xm.PI): out.append(n.target); out.append(n.data)
+        elif isinstance(n, xm.CD) and not split: out.append(n.value)
+    for n in d.prolog + getattr(d, 'prolog2', []) + d.epilog: walk(n)
+    walk(d.root)
+    for e in d.ents_content.values():
+        for c in e.content: walk(c)
+    if d.doctype:
+        out.append(d.doctype['name'])
+        for x in d.doctype['decls']:
+            if x.where != 'int': continue
+            out.append(xm.render_decl(d, x, d.version))
+            if isinstance(x, xm.AttDecl) and x.dtoks is not None: out.append(x.dvalue)
+    return out
+
+def build_parse_case(d, ns, ere, s, sub, excluded=None):
     text, files = xm.render(d)
     data = xm.encode_doc(text, 'utf-8')
     fbytes = {k: v.replace('@ENC@', 'UTF-8').encode('utf-8') for k, v in files.items()}
     s = dict(s)
+    excluded = excluded if excluded is not None else []
+    enc = 'UTF-16' if s['target'] == 'string' else s['enc']; codec = ENCS[enc][0]
+    cd = ''.join(all_chardata(d))
+    if enc not in INTRINSIC and any(ord(ch) > 0xFFFF for ch in cd + text):
+        excluded.append(F_ICUSUPP); s['enc'] = 'UTF-8'; codec = 'utf-8'
+    if any(not can_encode(ch, codec) for a in iter_attrs_all(d) for ch in a.qname):
+        excluded.append(F_ATTRNAME); s['enc'] = 'UTF-8'; codec = 'utf-8'
+    if s['split'] and any(ord(ch) > 0xFFFF and not can_encode(ch, codec) for n in iter_cdata(d) for ch in n.value):
+        excluded.append(F_CDSUR); s['enc'] = 'UTF-8'; codec = 'utf-8'
+    err_allowed = any(not can_encode(ch, codec) for sv in markup_strings(d, s['split']) for ch in set(sv))
     if sub == 0 and d.version == '1.0':
         s['sub'] = count_elements(d.root) // 2     # some element in the middle of the document (pre-order index)
     finish_ser(s)
     case = {'lane': 'parse', 'feat': 'ns=%d;ere=%d;val=0;loaddtd=1' % (ns, ere), 'ser': s, 'version': d.version,
             'doc_b64': base64.b64encode(data).decode(), 'files_b64': {k: base64.b64encode(v).decode() for k, v in fbytes.items()},
             'doc_preview': text[:500]}
+    if err_allowed: case['err_allowed'] = True
     return case, text
 
 def subtree_ok(orig_rows):
@@ -450,9 +559,10 @@ def xml10_char_ok(s):
         i += 1
     return True
 
+MISC_ALPHA = [x for x in TEXT_ALPHA if '\r' not in x]     # CR inside comment/PI/CDATA cannot be written at all (no references there): not generated
 @st.composite
-def gen_string(draw, max_size=8, bad_ok=True, min_size=1):
-    parts = draw(st.lists(st.sampled_from(TEXT_ALPHA), min_size=min_size, max_size=max_size))
+def gen_string(draw, max_size=8, bad_ok=True, min_size=1, alpha=None):
+    parts = draw(st.lists(st.sampled_from(alpha or TEXT_ALPHA), min_size=min_size, max_size=max_size))
     if bad_ok and draw(st.integers(0, 24)) == 0:
         parts.insert(draw(st.integers(0, len(parts))), draw(st.sampled_from(BAD_CHARS)))
     return ''.join(parts)
@@ -473,15 +583,15 @@ def build_case_strategy(draw, encs):
             used = {}
             if uri is not None: used[pfx] = uri
             for i in range(draw(st.integers(0, 2))):
-                apfx, auri = draw(st.sampled_from(NS_TABLE[:3] + [('', None), ('', None)]))
+                apfx, auri = draw(st.sampled_from(NS_TABLE[:3] + [('', None), ('', None), ('p', 'urn:q')]))
                 alocal = draw(st.sampled_from(names + ['a1', 'b2']))
-                if apfx and apfx in used and used[apfx] != auri: continue
+                if apfx and apfx in used and used[apfx] != auri:
+                    # a second namespace under a prefix already used on this element: inexpressible without renaming the prefix;
+                    # the serializer emits xmlns:p twice (finding F_NSCONF) -> class removed by construction, counted
+                    excluded.append(F_NSCONF); continue
                 if any(x[1] == alocal and x[2] == auri for x in el['attrs']): continue
                 if apfx: used[apfx] = auri
                 el['attrs'].append((apfx or None, alocal, auri, draw(gen_string(6, min_size=0))))
-            if draw(st.integers(0, 14)) == 0 and used and any(k for k in used):
-                # a second namespace under a prefix already used on this element: inexpressible without renaming -> finding F_NSCONF
-                excluded.append(F_NSCONF)
             if declare:
                 for k, v in sorted(used.items()):
                     el['decls'].append((k, v))
@@ -495,19 +605,22 @@ def build_case_strategy(draw, encs):
                 kind = draw(st.sampled_from(['T', 'T', 'T', 'E', 'E', 'CD', 'CD', 'C', 'PI']))
                 if kind == 'E': el['children'].append(gen_el(depth + 1, None))
                 elif kind == 'T': el['children'].append({'k': 'T', 'v': draw(gen_string(8))})
-                elif kind == 'CD': el['children'].append({'k': 'CD', 'v': draw(gen_string(6, min_size=0))})
-                elif kind == 'C': el['children'].append({'k': 'C', 'v': draw(gen_string(6, min_size=0))})
-                else: el['children'].append({'k': 'PI', 't': draw(st.sampled_from(['t', 'pi-1', 'x.y', '\u00e9t'])), 'v': draw(gen_string(6, min_size=0)).lstrip(' \t\r\n')})
+                elif kind == 'CD': el['children'].append({'k': 'CD', 'v': draw(gen_string(6, min_size=0, alpha=MISC_ALPHA))})
+                elif kind == 'C': el['children'].append({'k': 'C', 'v': draw(gen_string(6, min_size=0, alpha=MISC_ALPHA))})
+                else: el['children'].append({'k': 'PI', 't': draw(st.sampled_from(['t', 'pi-1', 'x.y', '\u00e9t'])), 'v': draw(gen_string(6, min_size=0, alpha=MISC_ALPHA)).lstrip(' \t\r\n')})
         return el
     root = gen_el(1, None)
-    misc_before = [{'k': 'C', 'v': draw(gen_string(4, min_size=0))} for _ in range(draw(st.integers(0, 1)))]
-    misc_after = [{'k': 'PI', 't': 't', 'v': draw(gen_string(4, min_size=0)).lstrip(' \t\r\n')} for _ in range(draw(st.integers(0, 1)))]
+    misc_before = [{'k': 'C', 'v': draw(gen_string(4, min_size=0, alpha=MISC_ALPHA))} for _ in range(draw(st.integers(0, 1)))]
+    misc_after = [{'k': 'PI', 't': 't', 'v': draw(gen_string(4, min_size=0, alpha=MISC_ALPHA)).lstrip(' \t\r\n')} for _ in range(draw(st.integers(0, 1)))]
     standalone = draw(st.booleans())
     return nsmode, s, root, misc_before, misc_after, standalone, excluded
 
 def build_build_case(nsmode, s, root, misc_before, misc_after, standalone, pre_excluded, stats=None):
     """-> (case | None, excluded-ids, labels)"""
-    s = dict(s); finish_ser(s)
+    s = dict(s)
+    if (s['enc'] not in INTRINSIC and s['target'] != 'string') and has_supplementary(root, misc_before, misc_after):
+        pre_excluded = list(pre_excluded) + [F_ICUSUPP]; s['enc'] = 'UTF-8'
+    finish_ser(s)
     enc = 'UTF-16' if s['target'] == 'string' else s['enc']; codec = ENCS[enc][0]
     E = xv.esc
     lines = []; idx = [0]
@@ -530,6 +643,8 @@ def build_build_case(nsmode, s, root, misc_before, misc_after, standalone, pre_e
                 excluded.append(F_PI); n['v'] = n['v'].replace('?>', '?_')
         elif n['k'] == 'CD':
             v = n['v']
+            if s['split'] and not xml10_char_ok(v):
+                excluded.append(F_CDBAD); v = ''.join(ch for ch in v if xml10_char_ok(ch))
             if s['split'] and ']]>' in v:
                 excluded.append(F_CDEND); v = v.replace(']]>', ']]_')
             if s['split'] and any(ord(ch) > 0xFFFF and not can_encode(ch, codec) for ch in v):
@@ -539,6 +654,12 @@ def build_build_case(nsmode, s, root, misc_before, misc_after, standalone, pre_e
         sanitize_for_known(n)
         k = n['k']
         if k == 'E':
+            fixed = []
+            for (ap, al, au, av) in n['attrs']:
+                if not enc_ok(al):
+                    excluded.append(F_ATTRNAME); al = 'n' + str(len(fixed))
+                fixed.append((ap, al, au, av))
+            n['attrs'] = fixed
             q = (n['prefix'] + ':' + n['local']) if n['prefix'] else n['local']
             me = new('elns\t%s\t%s' % (E(n['ns']) if n['ns'] is not None else '\\N', E(q)) if nsmode else 'el\t' + E(q))
             if not enc_ok(q): why.append('unencodable element name')
@@ -581,8 +702,6 @@ def build_build_case(nsmode, s, root, misc_before, misc_after, standalone, pre_e
     for n in misc_before: emit(n, 0)
     emit(root, 0)
     for n in misc_after: emit(n, 0)
-    if F_NSCONF in excluded:
-        return None, excluded, labels
     case = {'lane': 'build', 'feat': 'ns=%d;ere=1;val=0' % (1 if nsmode else 0), 'ser': s, 'version': '1.0', 'script': '\n'.join(lines),
             'cdata_split': cdata_split[0], 'exotic_chars': exotic[0]}
     if why:
@@ -590,6 +709,13 @@ def build_build_case(nsmode, s, root, misc_before, misc_after, standalone, pre_e
     else:
         case['expat_expected'] = expat_expected(root, misc_before, misc_after, nsmode)
     return case, excluded, labels
+
+def has_supplementary(root, before, after):
+    def w(n):
+        if n['k'] == 'E':
+            return any(ord(ch) > 0xFFFF for a in n['attrs'] for ch in a[3]) or any(w(c) for c in n['children'])
+        return any(ord(ch) > 0xFFFF for ch in n['v'])
+    return any(w(n) for n in before + [root] + after)
 
 def expat_expected(root, before, after, nsmode):
     """what pyexpat (non-namespace mode, xmlns attributes dropped, CDATA boundaries dropped) must report for the built tree"""
@@ -742,15 +868,20 @@ def worker(ctx):
 
     def prop_parse(c):
         d, ns, ere, s, sub = c
+        if sanitize_intsubset(d):
+            st_.excluded_known[F_INTSUB] += 1
+            xm.fix_comments(d)
         ex_ids = parse_exclusions(d)
         if ex_ids:
             for i in ex_ids: st_.excluded_known[i] += 1
             return
-        case, text = build_parse_case(d, ns, ere, s, sub)
+        exl = []
+        case, text = build_parse_case(d, ns, ere, s, sub, exl)
+        for i in exl: st_.excluded_known[i] += 1
         labels = parse_labels(d, text, effective_enc(case), s)
         if 'namespaces' in labels and ns: labels.add('ns-on')
         ok, detail, info = run_case(case, ex)
-        st_.sample({'lane': 'parse', 'ser': case['ser'], 'doc': text[:200]}, limit=2)
+        if labels & NONTRIV: st_.sample({'lane': 'parse', 'ser': case['ser'], 'doc': text[:300]}, limit=2)
         account(case, labels, ok, detail, info, [case['doc_b64'], case['feat'], case['ser']])
     def prop_build(c):
         nsmode, s, root, mb, ma, sa, pre = c
@@ -759,7 +890,7 @@ def worker(ctx):
         if case is None: return
         ok, detail, info = run_case(case, ex)
         if nsmode and 'fixup-added-decl' in info.get('labels', ()): labels.add('needs-fixup')
-        st_.sample({'lane': 'build', 'ser': case['ser'], 'script': case['script'][:300], 'expect': case.get('expect', 'ok')}, limit=4)
+        if labels & NONTRIV: st_.sample({'lane': 'build', 'ser': case['ser'], 'script': case['script'][:300], 'expect': case.get('expect', 'ok')}, limit=4)
         account(case, labels, ok, detail, info, [case['script'], case['feat'], case['ser']])
     def prop_format(case):
         ok, detail, info = run_case(case, ex)
